@@ -383,6 +383,18 @@ def report(ctx, model, trace, cid, mism_line, complaints):
         complaints = JUDGES[model](lines)
     else:
         mism2 = [mism_line] if mism_line else []
+        # an e2e case is one run of real processes on a shared machine: what it shows must show again
+        # (a child that did not report within its time limit is the typical one-off)
+        for t in ("e1", "e2"):
+            l2, m2 = replay_case(ctx, model, init, ops, tag=t)
+            seen = {(c[0], c[1]) for c in JUDGES[model](l2)}
+            complaints = [c for c in complaints if (c[0], c[1]) in seen]
+            if not m2:
+                mism2 = []
+        if not complaints and not mism2:
+            ctx.cov.setdefault("unreproduced", 0)
+            ctx.cov["unreproduced"] += 1
+            return
     text = (f"correspondence: envdrv {SUB[model]} vs Lean model Rie.Env ({model}); theorems {THEOREMS[model]}\n"
             f"replay with: ./check C16 --replay <this file>\nmodel={model}\n\ncase s\ninit {' '.join(init)}\n"
             + "".join("op " + " ".join(x) + "\n" for x in ops)
